@@ -202,6 +202,8 @@ class Run:
             self.c = Proc(cexe)
         oexe = core.build_harness("c14_own", ["c14_own.c"], variant=variant, extra_flags=OWN_FLAGS)
         self.own = Proc(oexe, env=self.c.env)        # round 2: ownership / reported sizes / static contexts never allocate
+        # round 3: unit-level tie of lib/compress/zstdmt_compress.c (resize with allocation failures, pools, sizeof)
+        self.mt = Proc(core.build_harness("c14_mt", ["c14_mt.c"], variant=variant, extra_flags=["-w"]), env=self.c.env)
         self.cap = 22 if ctx.quick else 25          # largest table log used in sessions
         self.mem_cap = (96 << 20) if ctx.quick else (900 << 20)
         self.disagreements = []                     # (kind, case, c, model)
@@ -1058,6 +1060,27 @@ class Run:
             if a.replace(" badfree=0", "") != b:
                 self.disagreements.append(("own-history", ln, a[:400], b[:400]))
         ctx.sample(dict(kind="dctx-ownership", c_case=hl[1][:200], c_result=cr[1][:300], model=mr[1][:300]))
+        # (a') round 3: the same histories with ALLOCATION FAILURES injected (token !k: the k-th allocation of the next operation
+        #      fails).  Oracle only (the DCtx model has no failures): sizeof >= live after every operation, free releases all
+        hf = []
+        for ops in self.own_history_cases()[-(8 if ctx.quick else 80):]:
+            o2 = []
+            for t in ops:
+                if rng.random() < 0.3:
+                    o2.append("!%x" % rng.randint(1, 4))
+                o2.append(t)
+            hf.append("DOWN 0 " + " ".join(o2))
+        for ln, a in zip(hf, par_run(self.own, hf)):
+            self.h("own:history-alloc-failures")
+            toks = [t for t in a.split() if t.count("/") == 4]
+            ctx.count(("down-fail", len(toks) > 20, any(t.startswith("M/") for t in toks), a.split()[0].split("/")[0] if a else "EMPTY"))
+            under = [i for i, t in enumerate(toks) if int(t.split("/")[2], 16) < int(t.split("/")[1], 16)]
+            if under or not a or a.startswith(("SEGV", "CRASH")) or "live=0" not in a or "badfree=0" not in a:
+                self.report(dict(kind="own-history", c_case=ln, c_result=a[:1500], harness="c14_own"),
+                            ("ZSTD_sizeof_DCtx under-reports after operation #%d of a history with allocation failures" % (under[0] + 1)) if under
+                            else "DCtx ownership history with allocation failures: crash or bytes left behind: %s" % a[-100:])
+            else:
+                ctx.cov["traces_validated_against_impl"] += 1
         # (b) a static DCtx asked to create a dictionary internally / to enter the multi-DDict mode: error, no allocation,
         #     no crash whatever bytes the workspace held; the context stays usable   (fixes 11c6d2b, c6e8f36)
         sl = ["SDCT %x %x %s" % (fill, pl, op) for fill in (0, 0xaa, 0xff, 0x55) for op in "LAPUEMG" for pl in (1, rng.choice([0, 2, 5]))]
@@ -1074,7 +1097,8 @@ class Run:
         #      while it works (link-time --wrap), the operation either fails cleanly or completes; the context stays usable
         keys = {"W": "C14-static-cctx-mt-via-cctxparams", "S": "C14-static-cctx-mt-via-cctxparams", "T": "C14-static-cctx-mt-via-cctxparams",
                 "B": "C14-static-cctx-localdict-byref", "Q": "C14-generatesequences-default-malloc"}
-        cl2 = ["SCCT %x %s" % (rng.choice([0, 1, 2]), op) for op in ("N0", "W1", "W2", "S2", "T2", "D2", "B0", "Y0", "P0", "R0", "Q0")]
+        cl2 = ["SCCT %x %s" % (rng.choice([0, 1, 2]), op) for op in ("N0", "W1", "W2", "S2", "T2", "D2", "B0", "Y0", "P0", "R0", "Q0",
+                                                                    "Z0", "L0", "C0", "I0", "U0", "H0", "E0", "X0")]      # second row: round 3 (more entry points)
         for ln, a in zip(cl2, par_run(self.own, cl2, chunks=4)):
             self.h("own:static-cctx")
             op = ln.split()[2][0]
@@ -1089,7 +1113,7 @@ class Run:
                         "ZSTD_sizeof_CCtx = %d" % (int(m.group(6), 16), int(m.group(3), 16), int(m.group(4), 16), ln.split()[2], int(m.group(5), 16)))
             elif m.group(9) != "OK" or (m.group(8) and m.group(8) != "ok") or m.group(2) not in ("OK", "M", "E40") or m.group(1) not in ("OK", "M", "E40"):
                 what = "static CCtx scenario %s misbehaves: %s" % (ln.split()[2], a[:120])
-            elif op in "NPR" and (m.group(1), m.group(2)) != ("OK", "OK"):
+            elif op in "NPRZLCIHEX" and (m.group(1), m.group(2)) != ("OK", "OK"):
                 what = "static CCtx refuses an operation that needs no allocation (%s): %s" % (ln.split()[2], a[:100])
             if what:
                 self.report(dict(kind="static-cctx", c_case=ln, c_result=a, harness="c14_own"), what, key=keys.get(op) if (m and int(m.group(3), 16)) else None)
@@ -1309,6 +1333,112 @@ class Run:
         core.log("C14 round-2 ties: %d ownership histories, %d static-dict, %d legacy, %d fromFrame, %d cdict-level, %d sizeof cases; %d disagreements so far"
                  % (len(hl), len(sl), len(ll), len(dl), len(cl_), len(zl), len(self.disagreements)))
 
+    # ---- (8) round 3: what a ZSTDMT_CCtx owns / reports, allocation failures included: code == model (coq/Mem/MtOwner.v) ----
+    def mt_cases(self):
+        rng, ctx = self.rng, self.ctx
+        fail_at = lambda k: "1" * (k - 1) + "0"
+        cases = []
+        # every failure position of the creation (12 allocations) and of the first resize 1 -> 4 (9 allocations)
+        for k in range(1, 14):
+            cases.append(("2", fail_at(k), []))
+        for k in range(0, 11):
+            cases.append(("1", "-", ["S4/" + (fail_at(k) if k else "-"), "G1000/1", "S4/-", "G1000/1", "F0"]))
+        # pools that are large enough are kept; a failed resize is repaired by the next session whatever it asks for
+        cases.append(("4", "-", ["S2/-", "S3/-", "S6/10", "S2/-", "S9/1110", "S9/110", "S1/-", "S12/-"]))
+        # buffer traffic: size-conditions test of ZSTDMT_getBuffer (kept: cap <= c <= 8 cap + 7), full pool, flush order
+        cases.append(("1", "-", ["G1000/1", "G1000/1", "G1000/1", "F2", "F0", "F0", "G1000/1", "G200/1", "F0", "G1f/1", "F0", "G2000/1", "G8/0", "F0", "F0",
+                                 "S3/-", "G800/1", "F0", "Q4b0/1", "Q960/1", "Q4b0/1", "Qc/0", "C5000/11", "C-/11", "C9000/10", "C100/11", "S7/1110", "S7/-"]))
+        # the whole ZSTDMT_initCStream_internal: I<n>/<sched>/<ldm hashLog>/<dictSize>/<windowLog>/<jobSize>; every failure position of a
+        # call that resizes 1 -> 3, creates a local CDict, grows the round buffer and allocates both LDM tables (13 allocations)
+        for k in range(0, 15):
+            cases.append(("1", "-", ["I3/%s/12/3e8/14/0" % (fail_at(k) if k else "-"), "I3/-/12/3e8/14/0", "G1000/1", "I3/-/0/0/14/0", "I3/-/10/0/14/80000", "I2/-/14/186a0/17/0"]))
+        for _ in range(30 if ctx.quick else 400):
+            n0 = rng.choice([1, 1, 2, 3, 4, 6])
+            ops, infl = [], 0
+            for _ in range(rng.randint(3, 24)):
+                k = rng.choice("SSIIIGGGGFFFQQCC")
+                if k == "I":
+                    nb = rng.choice([0, 1, 2, 2, 3, 4, 6])
+                    ops.append("I%x/%s/%x/%x/%x/%x" % (nb, rng.choice(["-", "-", fail_at(rng.randint(1, 14)), fail_at(rng.randint(1, 4))]), rng.choice([0, 0, 10, 12, 16, 20]),
+                                                       rng.choice([0, 0, 8, 1000, 100000]), rng.choice([14, 17, 20, 22]), rng.choice([0, 0, 1 << 19, 1 << 21])))
+                    infl = 0 if nb else infl
+                    continue
+                if k == "S":
+                    nb = rng.choice([0, 1, 2, 3, 4, 5, 6, 8, 13])
+                    ops.append("S%x/%s" % (nb, rng.choice(["-", "-", fail_at(rng.randint(1, 10)), fail_at(rng.randint(1, 4))])))
+                    infl = 0 if nb else infl       # S0 is refused: the buffers stay in flight (the smallest job table has 4 slots)
+                elif k == "G" and infl < 3:
+                    ops.append("G%x/%d" % (rng.choice([8, 100, 1000, 1000, 7999, 8000, 8008, 100000]), rng.choice([1, 1, 1, 0])))
+                    infl += 1
+                elif k == "F":
+                    ops.append("F%x" % rng.choice([0, 0, 1, 2]))
+                    infl = max(0, infl - 1)
+                elif k == "Q":
+                    ops.append("Q%x/%d" % (12 * rng.choice([1, 100, 800, 801, 6500]), rng.choice([1, 1, 0])))
+                elif k == "C":
+                    ops.append("C%s/%d%d" % (rng.choice(["-", "100", "5000", "20000"]), rng.choice([1, 1, 0]), rng.choice([1, 1, 0])))
+            cases.append(("%x" % n0, rng.choice(["-", "-", "-", fail_at(rng.randint(1, 13))]), ops))
+        return cases
+
+    def tie_round3(self):
+        ctx = self.ctx
+        import re
+        sizes = self.mt.run(["SIZES"])[0]
+        cases = self.mt_cases()
+        cl = ["MTU %s %s %s" % (n, sch, " ".join(ops)) for (n, sch, ops) in cases]
+        cr = par_run(self.mt, cl, chunks=4)
+        # the I operation (the whole ZSTDMT_initCStream_internal) has inputs that other code computes (size of the local CDict,
+        # capacity the round buffer must reach, LDM logs after ZSTD_ldm_adjustParameters): the harness prints them in [..]
+        # after the result token and they are handed to the model, which predicts outcome, pools and accounting
+        ml = []
+        for (n, sch, ops), a in zip(cases, cr):
+            rt = a.split()[1:]       # result tokens of the operations (the first one is the creation)
+            mops = []
+            for j, o in enumerate(ops):
+                if o[0] == "I":
+                    f = o[1:].split("/")
+                    x = re.search(r"\[d=([0-9a-f]+),rb=([0-9a-f]+),hl=([0-9a-f]+),bl=([0-9a-f]+)\]", rt[j]) if j < len(rt) else None
+                    d, rb, hl, bl = x.groups() if x else ("0", "0", "0", "0")
+                    mops.append("I%s/%s/%s/%s/%s/%s" % (f[0], f[1], "-" if int(f[3], 16) == 0 else (d if int(d, 16) else "1"), rb, hl, bl))
+                else:
+                    mops.append(o)
+            ml.append("MTU %s %s %s %s" % (sizes, n, sch, " ".join(mops)))
+        cr = [re.sub(r"\[[^\]]*\]", "", a) for a in cr]
+        mr = par_run(self.model, ml, chunks=4)
+        for ln, a, b in zip(cl, cr, mr):
+            self.h("mt:history")
+            toks = [t for t in a.split() if t.count("/") == 7]
+            mtoks = [t for t in b.split() if t.count("/") == 7]
+            ctx.count(("mtu", len(toks) > 8, " S" in ln and "0 " in ln + " ", any(t.split("/")[3] == "N" or t.split("/")[2] == "N" for t in toks),
+                       a.split()[0].split("/")[0] if a else "EMPTY", any(t.endswith("!") for t in mtoks)))
+            what, key = None, None
+            if not a or a.startswith("CRASH") or "BADTOKEN" in a or "NOSLOT" in a:
+                what = "multithreaded-context unit history crashes: %s" % a[:120]
+            elif a.startswith("NULL"):
+                if a != "NULL live=0 badfree=0":
+                    what = "ZSTDMT_createCCtx_advanced failed and left bytes behind: %s" % a
+            else:
+                for i, t in enumerate(toks):
+                    f = t.split("/")
+                    if f[7] == "X":
+                        what = ("ZSTDMT_sizeof_CCtx crashes on a live context whose resize failed (operation #%d %s; jobs=%s bufPool=%s cctxPool=%s seqPool=%s)"
+                                % (i, (ln.split()[2 + i] if i else "create"), f[2], f[3], f[4], f[5]))
+                        key = "C14-sizeof-cctx-after-failed-mt-resize" if i < len(mtoks) and mtoks[i].endswith("!") else None
+                        break
+                    if int(f[7], 16) < int(f[6], 16):
+                        what = "ZSTDMT_sizeof_CCtx reports %d while the context holds %d bytes (operation #%d of the history)" % (int(f[7], 16), int(f[6], 16), i)
+                        break
+                if not what and not a.endswith("end=0 badfree=0"):
+                    what = "ZSTDMT_freeCCtx leaves bytes behind or frees a foreign block: %s" % a[-40:]
+            if what:
+                self.report(dict(kind="mt-own", c_case=ln, c_result=a[:1200], model_result=b[:1200], harness="c14_mt"), what, key=key)
+                continue
+            ctx.cov["traces_validated_against_impl"] += 1
+            if a.replace(" badfree=0", "") != b.replace("!", ""):
+                self.disagreements.append(("mt-own", ln, a[:400], b[:400]))
+        ctx.sample(dict(kind="mt-ownership", c_case=cl[14][:200], c_result=cr[14][:300], model=mr[14][:300]))
+        core.log("C14 round-3 tie: %d multithreaded-context unit histories; %d disagreements so far" % (len(cl), len(self.disagreements)))
+
     # ---- SEARCH: a model/code disagreement or a broken proof is not yet a violation ----------------------------
     def search(self, seeds):
         """seeds: list of (kind, case...) disagreements.  Runs the direct oracle on the implementation around them."""
@@ -1362,8 +1492,10 @@ def replay(ctx, obj):
     rp = obj.get("replay", obj)
     c = Proc(core.build_harness("c14_harness", ["c14_harness.c"], variant="o1", extra_flags=["-w"]))
     line = rp.get("c_case") or rp.get("case")
-    if isinstance(line, str) and line.split()[0] in Run.OWN_KINDS:
+    if isinstance(line, str) and (line.split()[0] in Run.OWN_KINDS or line.split()[0] == "MTU"):
         c = Proc(core.build_harness("c14_own", ["c14_own.c"], variant="o1", extra_flags=OWN_FLAGS))
+        if line.split()[0] == "MTU":
+            c = Proc(core.build_harness("c14_mt", ["c14_mt.c"], variant="o1", extra_flags=["-w"]))
         r = c.run([line])[0]
         core.log("replay:", line[:200], "->", r[:300])
         ctx.sample(dict(kind="replay", case=line, result=r))
@@ -1424,6 +1556,7 @@ def run(ctx):
     r.tie_heap()
     r.tie_history()
     r.tie_round2()
+    r.tie_round3()
     if not ctx.quick:
         # supporting test: the same ties against an ASAN+UBSAN build (workspace poisoning + redzones: a write between
         # two reserved objects is reported by ASAN; the model runs with the redzone of that build)
@@ -1437,6 +1570,7 @@ def run(ctx):
         ra.tie_heap()
         ra.tie_history()
         ra.tie_round2()
+        ra.tie_round3()
         ctx.notes["asan_pass"] = "values, sessions, static CDict/DDict, heap, histories re-run against the asan build with redzone %s; %d new disagreements" % (
             hx(gen_const("c_ZSTD_CWKSP_ASAN_REDZONE_SIZE")), len(r.disagreements) - n0)
     ctx.notes["case_histogram"] = dict(sorted(r.hist.items()))
